@@ -383,9 +383,13 @@ def shrink(scn: Dict[str, Any]):
                 c = copy.deepcopy(scn)
                 c["tasks"][ti][si][1] = None
                 yield c
-            if t[si][0] > 0:
+            if t[si][0] in DUR and t[si][0] > 0 and (len(t[si]) < 3 or t[si][2] != 1):
                 c = copy.deepcopy(scn)
                 c["tasks"][ti][si][0] = DUR[max(0, DUR.index(t[si][0]) - 1)]
+                yield c
+            if len(t[si]) > 2 and t[si][2] == 2:
+                c = copy.deepcopy(scn)
+                c["tasks"][ti][si][2] = 0
                 yield c
     b = scn["budgets"]
     for i in range(len(b)):
@@ -397,4 +401,8 @@ def shrink(scn: Dict[str, Any]):
     if scn["start"]:
         c = copy.deepcopy(scn)
         c["start"] = 0
+        yield c
+    if scn.get("drain", BIG) != BIG:
+        c = copy.deepcopy(scn)
+        c["drain"] = BIG
         yield c
